@@ -256,6 +256,7 @@ def one_run(params):
         avoid = (H.userid,) if params["opt_c"] else ()
         out_uids = (S.userid,) if params["opt_c"] else (H.userid, S.userid)
         sent_classes = {}
+        held_after_ping = [0]
         recent = []
         stream = {}
         for i in range(n):
@@ -321,7 +322,7 @@ def one_run(params):
             k.run(k.now + rng.choice([0, 1, 100, 1000, 20000, 50000]))
             if i % 40 == 39:
                 row = srv.snapshot[H.userid] if srv.snapshot and H.userid < len(srv.snapshot) else None
-                if H.lazy and row and row["q_id"] != 0 and row["out_len"] == 0 and row["outpacketq_filled"] == 0 and row["conn"] == 1 and srv.alive():
+                if H.lazy and held_after_ping[0] and row and row["out_len"] == 0 and row["outpacketq_filled"] == 0 and row["conn"] == 1 and srv.alive():
                     # the server holds a query of the established (lazy) session: a packet that arrives for that session now goes
                     # out at once in answer to it - to that session, whatever the hostile traffic in between was about
                     H.drain()
@@ -334,11 +335,15 @@ def one_run(params):
                     if not any(fr == fpr for _t, fr in H.delivered[n_before:]) and srv.alive() and not out["violations"]:
                         out["violations"].append(("C05:packet-for-established-session-not-sent-in-answer-to-its-held-query",
                                                   "the server was holding a query of the established lazy-mode session (id %d) when a packet for it arrived; 60 ms later the session has not received it"
-                                                  % row["q_id"], {"seed": seed, "params": params, "last_datagrams": [(c, d.hex()[:300]) for c, d in recent]}))
+                                                  % held_after_ping[0], {"seed": seed, "params": params, "last_datagrams": [(c, d.hex()[:300]) for c, d in recent]}))
                 H.ping(20000)
                 if rng.random() < 0.2:
                     k.run(k.now + rng.choice([1, 5, 30]) * US)
                     H.ping(20000)
+                # (what the server holds for the established session right after its ping; nothing but hostile traffic follows
+                # until the next probe)
+                row = srv.snapshot[H.userid] if srv.snapshot and H.userid < len(srv.snapshot) else None
+                held_after_ping[0] = row["q_id"] if (row and H.lazy and row["out_len"] == 0) else 0
         k.run(k.now + 200000)
         # reply kinds the server produced (coverage of the handler x reply matrix)
         kinds = set()
